@@ -7,6 +7,8 @@ import Proofs.Reshape
 import Proofs.Zip
 import Proofs.TensorWf
 import Proofs.Scatter
+import Proofs.MaxpoolWindow
+import Proofs.Rechunk
 
 /-!
 # C02 — each layer's forward pass computes its defining operator
@@ -16,7 +18,8 @@ Over `ℝ` (rounding aside), for every configuration:
 * convolution: every pre-activation is the zero-padded, strided, dilated cross-correlation
   `Σ_{c,h,w} K[f][c][h][w] · X̃[c][i·s₀ + h·d₀ − p₀][j·s₁ + w·d₁ − p₁]` with `X̃` zero outside the input
   (`convolveAt_spec` for the loop, `pad3d_get` for the padding);
-* max-pool: each output dominates its window and is attained at the recorded index;
+* max-pool: each output dominates its window and is attained at the recorded index
+  (`maxpool_window_dominates`, `maxpool_window_attained`);
 * a flat vector and the `c × h × w` tensor with the same row-major content enter a spatial layer as
   the same data (`entry_flat_eq_spatial`).
 The deconvolution's scatter loop is related to its gather form by the point-wise scatter lemma
@@ -305,5 +308,33 @@ theorem deconv_gather (l : Deconv ℝ) (x : V3 ℝ) (ks : List (V3 ℝ)) (kf kc 
   obtain ⟨k', hk', c', _, t, ht, rfl⟩ := hu
   have := (mem_taps l ih iw kh kw oh ow t).mp ht
   exact replicate3_inBounds kf oh ow k' _ _ hk' this.2.2.2.2.2.2.2.2.1 this.2.2.2.2.2.2.2.2.2
+
+
+/-! ### max-pool: each output dominates its window and is attained at the recorded index -/
+
+/-- every element of the window (inside the input) is `≤` the value the scan returns -/
+theorem maxpool_window_dominates (l : Maxpool ℝ) (x : V3 ℝ) (c h w ih iw k li : ℕ)
+    (hk : k < l.kernel.1) (hli : li < l.kernel.2) (hg : h + k < ih ∧ w + li < iw) :
+    L.get3D 0 x c (h + k) (w + li) ≤ (Maxpool.window l x c h w ih iw).1 :=
+  MaxpoolWindow.window_dominates l x c h w ih iw k li hk hli hg
+
+/-- the value is the input at the recorded index, which lies in the window — unless nothing in the
+    window exceeds the start value `f32::MIN`, in which case the scan reports that value and `(0,0)` -/
+theorem maxpool_window_attained (l : Maxpool ℝ) (x : V3 ℝ) (c h w ih iw : ℕ) :
+    Maxpool.window l x c h w ih iw = (Scalar.minVal, (0, 0)) ∨
+    ∃ k li, k < l.kernel.1 ∧ li < l.kernel.2 ∧ h + k < ih ∧ w + li < iw ∧
+      (Maxpool.window l x c h w ih iw).2 = (h + k, w + li) ∧
+      (Maxpool.window l x c h w ih iw).1 = L.get3D 0 x c (h + k) (w + li) :=
+  MaxpoolWindow.window_attained l x c h w ih iw
+
+/-! ### flat input = spatial input -/
+
+/-- a flat vector with the row-major content of a `c × h × w` tensor enters a convolution,
+    deconvolution or max-pool (all three start with `entry`) as exactly that tensor, so the layer
+    computes the same thing on both -/
+theorem entry_flat_eq_spatial {α : Type} [Scalar α] (t : V3 α) (c h w : ℕ) (ht : L.Dims3 t c h w)
+    (hc : 0 < c) (hh : 0 < h) (hw : 0 < w) (s1 s2 : Shape) :
+    entry (⟨s1, .single (L.flatten3 t)⟩ : Tensor α) (.triple c h w) = entry (⟨s2, .triple t⟩ : Tensor α) (.triple c h w) :=
+  Rechunk.entry_flat_eq_spatial t c h w ht hc hh hw s1 s2
 
 end C02
